@@ -23,6 +23,8 @@ class Ctx:
         self.undecided = ""
         self.floor = 0
         self.extra = {}
+        self.core_only = False   # True when re-running on a frost-core-only feature configuration
+        self.config = "default"
 
     # ---- recording ----
     def ok(self, rule, where, what, detail=None):
